@@ -174,7 +174,9 @@ Definition tstep (c : cfg) (d : dstate) (t : thread) : option (dstate * thread) 
       if sz <? 0 then Some (d, goto t (Done (PutErr EBadRequest))) else
       if sz >? c_maxblob c then Some (d, goto t (Done (PutErr EBadRequest))) else
       if negb (Z.of_nat (String.length hash) =? hashLen) then Some (d, goto t (Done (PutErr EBadRequest))) else
-      if kind_eqb k CAS && (sz =? 0) && String.eqb hash emptySha256 then Some (d, goto t (Done PutOk)) else
+      if kind_eqb k CAS && (sz =? 0) && String.eqb hash emptySha256 then
+        (* the empty blob is always available; data sent for it is refused *)
+        (if st_len st >? 0 then Some (d, goto t (Done (PutErr EBadRequest))) else Some (d, goto t (Done PutOk))) else
       if sz >? 0 then
         let '(l', r) := LRU.reserve sz (lru d) in
         match r with
@@ -228,6 +230,7 @@ Definition tstep (c : cfg) (d : dstate) (t : thread) : option (dstate * thread) 
   (* ================= Get ================= *)
   | GetStart, RGet k hash sz off zstd b rnd =>
       if negb (Z.of_nat (String.length hash) =? hashLen) then Some (d, goto t (Done (GetErr EBadRequest))) else
+      if sz <? -1 then Some (d, goto t (Done (GetErr EBadRequest))) else   (* -1 = unknown; other negatives invalid *)
       if kind_eqb k CAS && (sz <=? 0) && String.eqb hash emptySha256 then Some (d, goto t (Done (GetHit 0 0 0))) else
       if negb (kind_eqb k CAS) && zstd then Some (d, goto t (Done (GetErr EBadRequest))) else
       if off <? 0 then Some (d, goto t (Done (GetErr EBadRequest))) else
